@@ -14,7 +14,8 @@ from vf.values import same, show
 PID = "C07"
 
 ARG_SHAPES = [(), ("msg",), ("é\x00", 2 ** 70), (None, [1.5, {"k": "v"}]), (3, "three"), ("x", (3, 4))]
-ATTR_SHAPES = {"none": {}, "scalar": {"code": 7}, "nested": {"info": [1, {"a": "x"}], "flag": True}, "tuple": {"span": (10, 20), "deep": [("a", 1)]}}
+ATTR_SHAPES = {"none": {}, "scalar": {"code": 7}, "nested": {"info": [1, {"a": "x"}], "flag": True}, "tuple": {"span": (10, 20), "deep": [("a", 1)]},
+               "notes": {"__notes__": ["first note", "second note"]}, "odd-names": {"__custom__": 1, "_private": "p", "__x": 2, "\u00dcn\u00ef": 3, "with space": 4}}
 KINDS = ["call", "prop", "batch_first", "batch_middle", "batch_last", "stream0", "stream2"]
 GENERATOR_PROTOCOL = ("StopIteration", "StopAsyncIteration", "GeneratorExit")
 
@@ -65,7 +66,7 @@ def run_config(unit):
                 for an, attrs in ATTR_SHAPES.items():
                     if quick and ai in (3, 4) and an != "none":
                         continue
-                    if quick and an == "tuple" and ai not in (1, 5):
+                    if quick and an in ("tuple", "notes", "odd-names") and ai not in (1, 5):
                         continue
                     cases.append((mod, name, cls, args, an, attrs))
         cases = cases[si::sn]
@@ -229,7 +230,7 @@ def run(ctx):
     cov = coverage_from_stats(
         total,
         rule="every Exception subclass in builtins and every PyroError subclass in Pyro5.errors (%d classes) x argument tuples from the lossless core (5 shapes, those the "
-             "class constructor itself refuses or rewrites are skipped) x attribute dictionaries {none, scalar, nested} x 4 serializers x call kinds {plain call, "
+             "class constructor itself refuses or rewrites are skipped) x attribute dictionaries {none, scalar, nested, tuples, PEP 678 notes, dunder/private/non-ascii/odd names} x 4 serializers x call kinds {plain call, "
              "property read, batch member first/middle/last, streamed item raising at index 0/2}; plus unserialisable attribute / argument and a class unknown to the "
              "receiver; after every failure the next call on the same proxy must work; distinct = (class, shape, kind) combinations" % len(exception_classes()),
         nontrivial=len(total.states))
